@@ -25,10 +25,46 @@ def pregen(check):
         vcheck.log(p.stdout.strip())
 
 
+OPTS = ("ft", "usft", "ax", "pmN", "pmX", "dn", "d3", "d7", "ab", "arf")
+NAMES = ("longlat", "merc", "lcc", "aea", "eqdc", "tmerc", "utm", "krovak")
+
+
+def post(check, pairs, stats):
+    """generator matrix into the evidence: generated `rt` lines per projection x {sphere, ellipsoid, +R_A} x option
+    (units, axis, prime meridian, datum kind, ellipsoid given as a/b or a/rf) x kind of geographic CRS; a hole in the
+    matrix (a projection that never met one of the options in this run) is a broken obligation of the check itself."""
+    import json
+    m = {}
+    for impl, _ in pairs:
+        t = impl.split(" ", 2)
+        if len(t) < 3 or t[0] != "rt":
+            continue
+        b, _, a = t[1].partition("/")
+        parts = b.split("-")
+        if parts[0] not in NAMES or "fixed" in parts:
+            continue
+        tags = set(parts[1:])
+        shape = "sphere" if ("S" in tags or "sph" in tags) else ("R_A" if "ra" in tags else "ellipsoid")
+        row = m.setdefault(parts[0], {})
+        for key in [shape] + [x for x in OPTS if x in tags] + ["geo:" + x for x in a.split("-") if x]:
+            row[key] = row.get(key, 0) + 1
+    check.cfg["explanation"] = ("generator matrix, rt lines (8 positions x 3 legs each) per projection x option this run: "
+                                + json.dumps(m, sort_keys=True))
+    holes = []
+    for name in NAMES:
+        need = ["sphere", "ellipsoid", "R_A", "pmN", "pmX", "dn", "d3", "d7", "ab", "arf", "geo:gW", "geo:gS", "geo:gX"]
+        if name != "longlat":
+            need += ["ft", "usft", "ax"]
+        holes += ["%s x %s" % (name, k) for k in need if m.get(name, {}).get(k, 0) == 0]
+    if holes:
+        check.broken.append("generator matrix has holes: " + ", ".join(holes[:12]))
+
+
 CFG = {
     "id": "C08",
-    "lean_modules": ["GeomV.C08.Proofs", "GeomV.C08.ProofsConic", "GeomV.C08.ProofsTmerc", "GeomV.C08.ProofsGeodetic", "GeomV.C08.ProofsKrovak", "GeomV.C08.ProofsUnique", "GeomV.C08.ProofsConverge", "GeomV.C08.ProofsHelmert", "GeomV.C08.Ties", "GeomV.C08.TiesCommon", "GeomV.C08.TiesReal"],
+    "lean_modules": ["GeomV.C08.Proofs", "GeomV.C08.ProofsConic", "GeomV.C08.ProofsTmerc", "GeomV.C08.ProofsGeodetic", "GeomV.C08.ProofsKrovak", "GeomV.C08.ProofsUnique", "GeomV.C08.ProofsConverge", "GeomV.C08.ProofsHelmert", "GeomV.C08.ProofsPipeline", "GeomV.C08.Ties", "GeomV.C08.TiesCommon", "GeomV.C08.TiesReal"],
     "pregen": pregen,
+    "post": post,
     "exe": "geomv_c08",
     "go_cmd": "c08",
     "stages": ["go:gen", "go:impl", "lean:judge"],
@@ -51,7 +87,9 @@ CFG = {
         "C08_merc_ell_reproject_within", "mlfn_lipschitz", "C08_eqdc_reproject_within", "C08_lcc_reproject_within",
         "C08_utm_sphere_inv",
         # the 7-parameter stage: exact residual of the small-angle inverse and its bound (the judge's a-priori bound)
-        "C08_helmert_residual", "C08_helmert_residual_bound", "rot_sq_le_sum_sq", "C08_helmert_not_identity"]] + [
+        "C08_helmert_residual", "C08_helmert_residual_bound", "rot_sq_le_sum_sq", "C08_helmert_not_identity",
+        # the model of the whole NewTransform closure, both directions composed (routes without a datum shift)
+        "datumTransform_nodatum", "C08_transform_roundtrip", "C08_transform_roundtrip_exact", "C08_transform_merc_sphere"]] + [
         # tie T1: model = definitions regenerated from the current Go source (rfl)
         T + "Ties." + n for n in ["tie_initMerc", "tie_fwdMerc", "tie_invMerc", "tie_initLcc", "tie_fwdLcc", "tie_invLcc",
                                   "tie_initAea", "tie_fwdAea", "tie_invAea", "tie_aeaPhi1zStep", "tie_initEqdc", "tie_fwdEqdc",
